@@ -195,7 +195,25 @@ func readRaw(dir, name string) json.RawMessage {
 	return b
 }
 
+// execMode: the probe is the stage code of a bare `src exec` stage: mrp runs
+// it directly, without the job monitor, so it has to record errors and its
+// completion itself (metadata file plus journal entry), as the protocol asks.
+var (
+	execMode    bool
+	execMeta    string
+	execJournal string // journal prefix incl. the phase prefix
+)
+
+func execNote(name, content string) {
+	os.WriteFile(filepath.Join(execMeta, "_"+name), []byte(content), 0644)
+	os.WriteFile(execJournal+name, []byte(content), 0644)
+}
+
 func errPipe(msg string) {
+	if execMode {
+		execNote("errors", msg)
+		return
+	}
 	f := os.NewFile(4, "errpipe")
 	if f != nil {
 		f.WriteString(msg)
@@ -214,6 +232,10 @@ func main() {
 		libMode = true
 		os.Args = append(os.Args[:1], os.Args[2:]...)
 	}
+	if len(os.Args) > 1 && os.Args[1] == "--exec" {
+		execMode = true
+		os.Args = append(os.Args[:1], os.Args[2:]...)
+	}
 	if len(os.Args) < 6 {
 		fmt.Fprintln(os.Stderr, "probe: usage: probe STAGE [spec] <phase> <meta> <files> <journal>")
 		os.Exit(2)
@@ -221,6 +243,10 @@ func main() {
 	tail := os.Args[len(os.Args)-4:]
 	stage := os.Args[1]
 	phase, meta, files := tail[0], tail[1], tail[2]
+	if execMode {
+		execMeta = meta
+		execJournal = tail[3] + "." + map[string]string{"main": "", "split": "split_", "join": "join_"}[phase]
+	}
 	specPath := os.Getenv("VERIF_SPEC")
 	if len(os.Args) >= 7 {
 		specPath = os.Args[2]
@@ -454,6 +480,11 @@ func main() {
 		syscall.Kill(os.Getpid(), syscall.SIGKILL)
 		time.Sleep(time.Second)
 	case "kill_mrjob":
+		if execMode {
+			// there is no monitor: the parent is mrp
+			syscall.Kill(os.Getpid(), syscall.SIGKILL)
+			time.Sleep(time.Second)
+		}
 		syscall.Kill(os.Getppid(), syscall.SIGKILL)
 		time.Sleep(200 * time.Millisecond)
 		os.Exit(0)
@@ -692,6 +723,17 @@ func main() {
 		}
 	}
 	emit(e)
+	if execMode {
+		execNote("complete", time.Now().Format("2006-01-02 15:04:05"))
+		switch fault {
+		case "complete_then_exit":
+			// completion recorded, and then the process fails after all
+			os.Exit(3)
+		case "complete_then_kill":
+			syscall.Kill(os.Getpid(), syscall.SIGKILL)
+			time.Sleep(time.Second)
+		}
+	}
 	killMrp("end")
 	os.Exit(0)
 }
